@@ -2349,7 +2349,7 @@ def function_close_cases(rng, quick):
     # current_time: far into the process consecutive start times differ by a relative 1e-7 .. 1e-10; near the origin
     # with the smallest Ts all of them are below 1e-8
     k0 = (1 << 33) + rng.randint(0, 1000)
-    add('current_time-relative', [{'Fd': 37.25, 'Ts': 1e-3, 'k0': k0 + d, 'N': N} for d in (0, 1, 2, N, 1000)])
+    add('current_time-relative', [{'Fd': 37.25, 'Ts': 1e-3, 'k0': k0 + d, 'N': N} for d in (0, 1, 2, N + 2, 1000)])
     add('current_time-tiny', [{'Fd': 4.0e7, 'Ts': 1e-9, 'k0': d, 'N': N} for d in (0, 1, 3, 9, 10)])
     # phases: phi / psi perturbed by 1e-9 .. 1e-6 (np.allclose-equal), starting phases of size 1e-9 .. 1e-15
     add('psi-close', [{'Fd': 100.0, 'Ts': 1e-3, 'k0': 50, 'N': N, 'dpsi': d} for d in (0.0, 1e-9, 1e-6, 3e-8)], rng.choice([1, 2]))
